@@ -331,6 +331,9 @@ def _list_optimal(kinds, vals1, vals2, goal2_min, single, nan0, args):
       if single and kinds[i] == 1:
         del target.metrics[:]
         target.metrics.add(metric_id='other', value=v1)
+      if close:
+        # an additional metric the study does not configure (here NaN on one trial) has no say in optimality
+        target.metrics.add(metric_id='zz_unconfigured', value=float('nan') if i == 1 else 3.0)
       sv.datastore.create_trial(t)
     resp = sv.ListOptimalTrials(vs.ListOptimalTrialsRequest(parent=svc.S))
     got = sorted(int(t.id) for t in resp.optimal_trials)
